@@ -618,6 +618,8 @@ def run(ctx, rep):
     c01_choice.run(ctx, rep, rid="R-C09-choiceid")
     from rules import c09_scale
     c09_scale.run(ctx, rep)
+    from rules import c09_signed
+    c09_signed.run(ctx, rep)
     # character strings are read character by character: nothing rewrites the raw text (inside literals too) before the lexer
     from rules.c08 import rule_prestep
     rule_prestep(ctx, rep, rid="R-C09-prestep")
